@@ -458,8 +458,13 @@ func execute(c *Case, s *signer) (resOut *result, errOut error) {
 		}
 		res.outcome, res.err = v.VerifyBlob(ctx, gen, c.Envelope, notation.BlobVerifierVerifyOptions{SignatureMediaType: c.Format, UserMetadata: required()})
 	case "notation.VerifyBlob":
-		_, res.outcome, res.err = notation.VerifyBlob(ctx, v, p.blobReader(), c.Envelope, notation.VerifyBlobOptions{
-			BlobVerifierVerifyOptions: notation.BlobVerifierVerifyOptions{SignatureMediaType: c.Format, UserMetadata: required()}, ContentMediaType: p.MediaType})
+		// the options are filled in the way callers write it: through the selectors (a literal of the
+		// embedded struct names the same fields today, but only today)
+		var vo notation.VerifyBlobOptions
+		vo.SignatureMediaType = c.Format
+		vo.UserMetadata = required()
+		vo.ContentMediaType = p.MediaType
+		_, res.outcome, res.err = notation.VerifyBlob(ctx, v, p.blobReader(), c.Envelope, vo)
 	default:
 		return nil, fmt.Errorf("unknown entry %q", c.Entry)
 	}
@@ -587,6 +592,9 @@ func TestC01_Bound(t *testing.T) {
 			c.PluginKind = ""
 		}
 		c.Source = rp.Pick(rt, "source", "fresh", "fresh", "descriptor-nearmiss", "descriptor-nearmiss", "metadata-nearmiss", "metadata-nearmiss", "reassembled", "reassembled", "wrong-payload-type", "payload-size-lies", "payload-size-lies", "bytemutated", "bytemutated")
+		if kind == "blob" && rapid.IntRange(0, 9).Draw(rt, "signedForEmptyBlob") == 0 {
+			c.Source = "signed-for-the-empty-blob"
+		}
 		descNearMiss := func() {
 			p := &c.Presented
 			if kind == "oci" {
@@ -724,6 +732,16 @@ func TestC01_Bound(t *testing.T) {
 			}
 			c.Envelope = buildEnv(c.Format, sA, []byte(payload), envb.PayloadType, c.Plugin)
 			c.Detail = "size=" + sizeToken
+		case "signed-for-the-empty-blob":
+			// a valid signature of the signer for the EMPTY blob, its digest computed with another
+			// algorithm than the one bound to the signing key (or with that one); a non-empty blob is
+			// presented. A verification that digests the presented blob a second time would, on a
+			// reader that has been read to its end, digest nothing
+			ai, _ := envb.AlgFor(sA.chain.Leaf().Key.Public())
+			alg := rp.Pick(rt, "emptyBlobAlg", "sha256", "sha384", "sha512", hashName(ai))
+			payload := fmt.Sprintf(`{"targetArtifact":{"mediaType":%q,"digest":%q,"size":0}}`, art.mediaType, kit.OwnDigest(alg, nil))
+			c.Envelope = buildEnv(c.Format, sA, []byte(payload), envb.PayloadType, c.Plugin)
+			c.Detail = "empty-blob-digest-alg=" + alg
 		case "wrong-payload-type":
 			switch rp.Pick(rt, "wrongType", "content-type", "other-shape", "descriptor-at-top", "empty-object") {
 			case "content-type":
